@@ -566,6 +566,11 @@ def _axis_loop(check: Check, wh: FuncInfo, wff: FuncFlow):
             'builtins.set', 'builtins.frozenset', 'builtins.dict', 'dict.fromkeys')):
           dedup = True
     per_axis = any(isinstance(v, ast.Call) and (wff.ext(v.func) or '') in ('builtins.enumerate', 'builtins.range') for v in wff.expand(it))
+    jumps = [x for x in ast.walk(n.ast) if isinstance(x, (ast.Continue, ast.Break))]
+    if jumps:
+      check.ob('R-SCHEDULE.axes', wh, 'continue / break in the per-axis loop', False,
+               'some axes leave the loop body before their contraction: every axis of the reshaped input is transformed along its own '
+               'axis index, a shortcut for one block size must still act on that axis', node=jumps[0], exact=True)
     check.ob('R-SCHEDULE.axes', wh, f'for {txt(n.ast.target)} in {txt(it)[:40]}', False if dedup else (True if per_axis else None),
              'the transform loop visits every axis once' if not dedup else
              'the transform loop runs over a set / dict of block sizes: two axes of the same size share one entry, so only one of them is '
